@@ -275,6 +275,18 @@ func (m *xccMachine) setup(c *xccCase, script int, out *xccOut) *xccConsole {
 					if B == 4 && rng.Intn(6) == 0 { // same colour bytes, different top byte
 						rc.raw[o+3] = byte(rng.Intn(256))
 					}
+					if rng.Intn(5) == 0 { // set some of the low bits of colour fields wider than 8 bits
+						var slack uint32
+						for f := 0; f < 3; f++ {
+							if pos, size := uint32(c.Ci[2*f]), uint32(c.Ci[2*f+1]); size > 8 {
+								slack |= ((1 << (size - 8)) - 1) << pos
+							}
+						}
+						slack &= rng.Uint32()
+						for k := 0; k < B; k++ {
+							rc.raw[o+k] |= byte(slack >> (8 * uint(k)))
+						}
+					}
 				}
 			}
 		}
@@ -560,8 +572,8 @@ var xccLayouts = map[uint32][][6]uint8{
 	8:  {{0, 0, 0, 0, 0, 0}},
 	15: {{10, 5, 5, 5, 0, 5}, {0, 5, 5, 5, 10, 5}},
 	16: {{11, 5, 5, 6, 0, 5}, {0, 5, 5, 6, 11, 5}, {8, 4, 4, 4, 0, 4}},
-	24: {{16, 8, 8, 8, 0, 8}, {0, 8, 8, 8, 16, 8}, {18, 6, 10, 6, 2, 6}},
-	32: {{16, 8, 8, 8, 0, 8}, {24, 8, 16, 8, 8, 8}, {8, 8, 16, 8, 24, 8}, {21, 7, 11, 6, 2, 5}},
+	24: {{16, 8, 8, 8, 0, 8}, {0, 8, 8, 8, 16, 8}, {18, 6, 10, 6, 2, 6}, {14, 9, 5, 9, 0, 5}},
+	32: {{16, 8, 8, 8, 0, 8}, {24, 8, 16, 8, 8, 8}, {8, 8, 16, 8, 24, 8}, {21, 7, 11, 6, 2, 5}, {20, 10, 10, 10, 0, 10}},
 }
 
 func xccRandomCase(id int, rng *rand.Rand, nScripts, nOps int) *xccCase {
